@@ -51,7 +51,7 @@ CONFIG = {
                   "every interleaving): no_send_on_closed_channel, reply_always_deliverable, reply_channel_closed_once (every tree), with witnesses early_return_send_on_closed_channel "
                   "(Send giving up on quit while keeping defer close(ch)) and double_reply_send_on_closed_channel; facts sendWaitsForReply / sendClosesReply / workerRepliesOnce "
                   "extracted for both streamer types (facts_good_reply_channel). PARTIAL: table_ok_partial excludes two genuine races, reproduced by the race detector on "
-                  "every run and listed as known findings (GRPCServer.broker in Stop/Stop; Client.negotiatedVersion in NegotiatedVersion/Start). Seventh round: a brokered listener closed while a dial for it is in flight (C20.close-mid, the D18 schedule in the -race child process): no library goroutine panics. Eighth round: the race workload emits multi-chunk bursts on both standard streams (the plugin side's stdio copier under the race detector).",
+                  "every run and listed as known findings (GRPCServer.broker in Stop/Stop; Client.negotiatedVersion in NegotiatedVersion/Start). Seventh round: a brokered listener closed while a dial for it is in flight (C20.close-mid, the D18 schedule in the -race child process): no library goroutine panics. Eighth round: the race workload emits multi-chunk bursts on both standard streams (the plugin side's stdio copier under the race detector). Ninth round: a multiplexing plugin dies right after its handshake line while four goroutines connect: errors, not a crash of the host (C20.mux-connect-fails).",
     "level_note": "Partial: the theorem is about the extracted table; accesses the extractor does not see (through interfaces, in dependencies) are not covered, and the "
                   "publication rules are happens-before arguments encoded as checked data, not derived in the model. Race-detector runs (real plugin subprocesses built "
                   "with -race, seeded delay points) are model validation and failing-schedule search only. Trusted: Lean kernel, extractor (lock-state walk, call-context "
